@@ -240,6 +240,21 @@ func strEq(a, b Str) (Bool, bool) {
 		if (isNumTok(a) && notNumber(b)) || (isNumTok(b) && notNumber(a)) {
 			return Bool{C: false}, false
 		}
+		// the text of a JSON array or object starts with its bracket: it never equals a
+		// concrete text that starts otherwise (e.g. "null", "")
+		bracket := func(x Str) byte {
+			if len(x.Segs) == 1 && (strings.HasPrefix(x.Segs[0].Q, "json([") || strings.HasPrefix(x.Segs[0].Q, "json({")) {
+				return x.Segs[0].Q[5]
+			}
+			return 0
+		}
+		differs := func(tok, conc Str) bool {
+			c := bracket(tok)
+			return c != 0 && conc.IsConc() && (conc.C == "" || conc.C[0] != c)
+		}
+		if differs(a, b) || differs(b, a) {
+			return Bool{C: false}, false
+		}
 		return Bool{}, true
 	}
 	ab, _ := a.Bytes()
